@@ -222,8 +222,54 @@ func evalVarsChain(d varsCase) []varsLine {
 	return []varsLine{{cl.String(), strings.Join(parts, " ")}}
 }
 
+// evalVarsLoopMap: `for: {var: M}` over a map variable; every iteration prints KEY and ITEM.  The order of the iterations is
+// the documented variation (sorted on both sides), the PAIRING of a key with its own value is not.
+func evalVarsLoopMap(d varsCase) []varsLine {
+	l := d.Loop
+	varsCaseNo++
+	base := os.Getenv("VERIF_SCRATCH")
+	if base == "" {
+		base = os.TempDir()
+	}
+	dir := filepath.Join(base, fmt.Sprintf("vm%d-%d", os.Getpid(), varsCaseNo))
+	os.MkdirAll(dir, 0o755)
+	defer os.RemoveAll(dir)
+	var y, cl strings.Builder
+	y.WriteString("version: '3'\nvars:\n  M:\n    map:\n")
+	fmt.Fprintf(&cl, "vars.loopmap %d", len(l.Items))
+	for i, k := range l.Items {
+		v := fmt.Sprintf("val-%s-%d", k, (i*7+3)%len(l.Items))
+		fmt.Fprintf(&y, "      %s: %s\n", k, v)
+		fmt.Fprintf(&cl, " %s %s", hx(k), hx(v))
+	}
+	y.WriteString("tasks:\n  loop:\n    cmds:\n      - for: {var: M}\n        cmd: 'echo {{.KEY}}|{{.ITEM}}'\n")
+	os.WriteFile(filepath.Join(dir, "Taskfile.yml"), []byte(y.String()), 0o644)
+	e := task.NewExecutor(task.WithDir(dir), task.WithStdout(io.Discard), task.WithStderr(io.Discard), task.WithSilent(true),
+		task.WithTempDir(task.TempDir{Remote: filepath.Join(dir, ".task"), Fingerprint: filepath.Join(dir, ".task")}))
+	if err := e.Setup(); err != nil {
+		return []varsLine{{cl.String(), "setup-error " + hx(err.Error())}}
+	}
+	t, err := e.CompiledTask(&task.Call{Task: "loop"})
+	if err != nil {
+		return []varsLine{{cl.String(), "error " + hx(err.Error())}}
+	}
+	var its []string
+	for _, c := range t.Cmds {
+		kv := strings.SplitN(strings.TrimPrefix(c.Cmd, "echo "), "|", 2)
+		if len(kv) != 2 {
+			kv = []string{c.Cmd, "?"}
+		}
+		its = append(its, hx(kv[0])+","+hx(kv[1]))
+	}
+	sort.Strings(its)
+	return []varsLine{{cl.String(), strings.Join(append([]string{fmt.Sprint(len(t.Cmds))}, its...), " ")}}
+}
+
 func evalVarsLoop(d varsCase) []varsLine {
 	l := d.Loop
+	if l.Form == "map" {
+		return evalVarsLoopMap(d)
+	}
 	varsCaseNo++
 	base := os.Getenv("VERIF_SCRATCH")
 	if base == "" {
@@ -1326,6 +1372,15 @@ func runVars(c *Ctx) {
 		}
 		c.Hit("loop:" + l.Form + ":stale=" + l.Stale)
 		emitAll(varsCase{Kind: "loop", Loop: l, Dotenvs: map[string][][2]string{}})
+		if i%2 == 0 {
+			// the same loop over a MAP variable with 2..8 entries (keys not in alphabetical order of declaration)
+			ml := &vLoop{Form: "map"}
+			for j, n := 0, 2+r.Intn(7); j < n; j++ {
+				ml.Items = append(ml.Items, fmt.Sprintf("k%c%d", 'z'-rune(j*3%26), j))
+			}
+			c.Hit("loop:map")
+			emitAll(varsCase{Kind: "loop", Loop: ml, Dotenvs: map[string][][2]string{}})
+		}
 	}
 	m := c.Pick(60, 600)
 	for i := 0; i < m; i++ {
